@@ -83,6 +83,7 @@ fn avoid_flags_uncached() -> Avoid {
                 "missing_proto_method" => a.missing_proto_method = true,
                 "plain_sum_operand" => a.plain_sum_operand = true,
                 "opt_call_paren_callee" => a.opt_call_paren_callee = true,
+                "legacy_decimal_member" => a.legacy_decimal_member = true,
                 "apply_surplus_args" => a.apply_surplus_args = true,
                 "super_key_before_super_call" => a.super_key_before_super_call = true,
                 _ => {}
